@@ -197,7 +197,8 @@ func (p *Pool[K, V]) Put(key K, val V) {
 
 		p.unlink(local, ent)
 
-		if local.count == 0 {
+		// the list of the key being put stays registered: the new entry is appended to it below.
+		if local.count == 0 && ent.key != key {
 			delete(p.entries, ent.key)
 		}
 	}
